@@ -370,38 +370,42 @@ def a6_a7(chk, repo):
 
 
 def groupname_injective(chk, repo, rule):
-    """filename_to_groupname evaluated (constant propagation) on every (polarisation, scan) combination the file-name
-    grammar admits: 5 x 11 cases, exhaustive; names must be pairwise distinct and carry both components"""
-    from ..shapes import Const, DictS, Fn, Interp, ShapeError, _Raise
+    """filename_to_groupname evaluated (constant folding in the checker's interpreter, through the decoders it calls) on
+    image file names with every (polarisation, scan suffix) combination the file-name grammar admits: 4 x (none + B0-9 + F0-9);
+    per processing method the names must be pairwise distinct and carry both components"""
+    from ..shapes import Const, Interp, ShapeError, _Raise
     si = repo.module("ceos_alos2.sar_image")
-    fg = si.func("filename_to_groupname")
     where = f"{si.relpath}:filename_to_groupname"
     names = {}
-    for pol in ("HH", "HV", "VH", "VV", None):
-        for scan in [None] + [str(d) for d in range(10)]:
-            I = Interp(repo)
-            info = DictS({"filetype": Const("IMG"), "polarization": Const(pol), "mission_name": Const("ALOS2"), "orbit_accumulation": Const("01234"),
-                          "scene_frame": Const("5678"), "observation_mode": Const("ScanSAR nominal 14MHz mode dual polarization"), "processing_level": Const("level 1.1")})
-            if scan is not None:
-                info.items["processing_method"] = Const("full aperture_method")
-                info.items["scan_number"] = Const(scan)
-            I.module_scope(si).vars["decode_filename"] = Fn("const", value=info, name="decode_filename")
-            f = I.resolve_global(si, "filename_to_groupname")
+    I = Interp(repo)
+    f = I.resolve_global(si, "filename_to_groupname")
+    for pol in ("HH", "HV", "VH", "VV"):
+        for scan in [None] + [m + str(d) for m in "BF" for d in range(10)]:
+            fname = f"IMG-{pol}-ALOS2012345678-160229-WBDR1.1__D" + (f"-{scan}" if scan else "")
             try:
-                out = I.call(f, [Const("IMG-xx")], {})
-            except (_Raise, ShapeError) as e:
-                raise AnalysisError(f"{where}: cannot evaluate the group name for polarisation={pol}, scan={scan}: {e}")
+                out = I.call(f, [Const(fname)], {})
+            except _Raise as e:
+                chk.fail(rule, where, f"the valid image file name {fname!r} is rejected ({e.what[:70]}): the image cannot be opened", key=f"groupname:rejects:{'scan' if scan else 'plain'}")
+                continue
+            except ShapeError as e:
+                raise AnalysisError(f"{where}: cannot evaluate the group name of {fname!r}: {e}")
             if not isinstance(out, Const) or not isinstance(out.v, str):
-                raise AnalysisError(f"{where}: group name for polarisation={pol}, scan={scan} is not a constant string: {out!r}")
+                raise AnalysisError(f"{where}: group name of {fname!r} is not a constant string: {out!r}")
             names[(pol, scan)] = out.v
-    clashes = {}
-    for k, v in names.items():
-        clashes.setdefault(v, []).append(k)
-    dup = {v: ks for v, ks in clashes.items() if len(ks) > 1}
-    chk.require(not dup, rule, where, f"{len(names)} (polarisation, scan) combinations give {len(clashes)} distinct group names (e.g. {names[('HH', '3')]!r}, {names[('HV', None)]!r})",
-                f"different images get the same group name: {dict(list(dup.items())[:3])} - the later one silently replaces the earlier one under /imagery", key="groupname:injective",
-                sample={"HH/3": names[("HH", "3")], "HH/0": names[("HH", "0")], "HH/-": names[("HH", None)]})
-    fmt_ok = all((pol or "") in v and (f"scan{scan}" in v if scan is not None else "scan" not in v) for (pol, scan), v in names.items())
+    if not names:
+        return
+    dup = {}
+    for method in "BF":
+        clashes = {}
+        for (pol, scan), v in names.items():
+            if scan is None or scan[0] == method:
+                clashes.setdefault(v, []).append((pol, scan))
+        dup.update({v: ks for v, ks in clashes.items() if len(ks) > 1})
+    ex = lambda k: names.get(k, "?")
+    chk.require(not dup, rule, where, f"{len(names)} (polarisation, scan) combinations give pairwise distinct group names within a product (e.g. {ex(('HH', 'B3'))!r}, {ex(('HH', 'F3'))!r}, {ex(('HV', None))!r})",
+                f"different images of one product get the same group name: {dict(list(dup.items())[:3])} - the later one silently replaces the earlier one under /imagery", key="groupname:injective",
+                sample={"HH/B3": ex(("HH", "B3")), "HH/F0": ex(("HH", "F0")), "HH/-": ex(("HH", None))})
+    fmt_ok = all(pol in v and (f"scan{scan[1]}" in v if scan is not None else "scan" not in v) for (pol, scan), v in names.items())
     chk.require(fmt_ok, rule, where, "names are <polarisation>[_scan<n>]", f"names do not follow <polarisation>[_scan<n>]: {dict(list(names.items())[:6])}", key="groupname:format")
 
 
